@@ -35,6 +35,9 @@ const csearch_t::point_t& csearch_t::search(bundle_t& bundle, const scalar_t miu
 {
     auto& t = m_point.m_t;
     t       = 1.0;
+
+    // NB: the status of the previous search must not be returned if running out of function evaluations!
+    m_point.m_status = csearch_status::max_iters;
     auto tL = 0.0;
     auto tR = std::numeric_limits<scalar_t>::infinity();
 
